@@ -46,6 +46,10 @@ fn fill<T: Component>(world: &World, es: &[Entity; NI], order: [usize; NI], mk: 
 
 /// `WorldExt::new()` with both storages, arbitrary content, allocator state of pattern `pat`.
 pub fn any_world(setup_read: bool, pat: [u8; NI]) -> W {
+    any_world_g(setup_read, pat, false)
+}
+
+pub fn any_world_g(setup_read: bool, pat: [u8; NI], concrete_gens: bool) -> W {
     let mut world = World::new();
     world.register::<CA>();
     if setup_read {
@@ -56,7 +60,7 @@ pub fn any_world(setup_read: bool, pat: [u8; NI]) -> W {
     let es = all_alive_into(&mut world.write_resource::<EntitiesRes>());
     let ma = fill::<CA>(&world, &es, [0, 1, 2], CA);
     let mb = fill::<CB>(&world, &es, [2, 0, 1], CB);
-    let st = pattern_entities_into(&mut world.write_resource::<EntitiesRes>(), pat);
+    let st = pattern_entities_into_g(&mut world.write_resource::<EntitiesRes>(), pat, concrete_gens);
     for i in 0..NI {
         // a reachable world: a dead index has no component anywhere (C05's own invariant,
         // re-established by `check_after`)
@@ -211,9 +215,24 @@ pub fn step_delete_entities(t: usize, u: usize, setup_read: bool, pat: [u8; NI])
 }
 
 /// op 2: deferred deletion through the entities resource, then `World::maintain`
-pub fn step_delete_atomic_maintain(t: usize, setup_read: bool, pat: [u8; NI]) {
-    let mut w = any_world(setup_read, pat);
-    let (h, live) = any_handle(&w.st, t);
+///
+/// `exact`: the handle is the target's CURRENT handle (the pattern must have the index occupied).
+/// With an arbitrary handle the deletion request is conditional on a symbolic comparison, the
+/// `killed` set's membership becomes symbolic, and `maintain`'s loop over it then runs on a
+/// symbolic index (> 30 GB) - unless the pattern already has the deletion requested. So the
+/// arbitrary-handle form is used on such patterns only, the exact form on the others.
+pub fn step_delete_atomic_maintain(t: usize, setup_read: bool, pat: [u8; NI], exact: bool) {
+    // (the exact form also fixes the generations to constants: `is_alive` branches on the sign
+    // of the stored generation)
+    let mut w = any_world_g(setup_read, pat, exact);
+    let (h, live) = if exact {
+        match w.st[t].current() {
+            Some(g) => (Entity::verif_new(IDS[t], g), true),
+            None => return,
+        }
+    } else {
+        any_handle(&w.st, t)
+    };
     {
         let r = w.world.entities().delete(h);
         assert!(r.is_ok() == live, "C05/C02: deferred delete succeeded exactly for a live handle");
@@ -228,7 +247,7 @@ pub fn step_delete_atomic_maintain(t: usize, setup_read: bool, pat: [u8; NI]) {
     }
     check_after(&w, &dead);
     witness!(!w.st[t].occupied() || (live && w.ma[t].is_some() && w.mb[t].is_some()), "deferred deletion of an entity with both components");
-    witness!(!live, "a handle that is not live is refused");
+    witness!(exact || !live, "a handle that is not live is refused");
     forget(w);
 }
 
@@ -252,7 +271,11 @@ pub fn step_maintain(setup_read: bool, pat: [u8; NI]) {
 
 /// op 4: `World::delete_all`
 pub fn step_delete_all(setup_read: bool, pat: [u8; NI]) {
-    let mut w = any_world(setup_read, pat);
+    step_delete_all_g(setup_read, pat, false)
+}
+
+pub fn step_delete_all_g(setup_read: bool, pat: [u8; NI], concrete_gens: bool) {
+    let mut w = any_world_g(setup_read, pat, concrete_gens);
     w.world.delete_all();
     let mut dead = [false; NI];
     for i in 0..NI {
@@ -274,7 +297,11 @@ pub fn step_delete_all(setup_read: bool, pat: [u8; NI]) {
 
 /// op 5: an entity builder with components that is dropped without being built, then maintain
 pub fn step_builder_dropped(setup_read: bool, pat: [u8; NI]) {
-    let mut w = any_world(setup_read, pat);
+    step_builder_dropped_g(setup_read, pat, false)
+}
+
+pub fn step_builder_dropped_g(setup_read: bool, pat: [u8; NI], concrete_gens: bool) {
+    let mut w = any_world_g(setup_read, pat, concrete_gens);
     let x = nd::u8();
     let id;
     {
